@@ -404,6 +404,13 @@ def _mirsym():
             spec=sib.BufferBatchesSpec(), stubs=["HashMap<String,V> -> association list (entry/or_insert_with/values_mut/into_iter)"],
             assumptions=["sparse index lists are strictly increasing and below the batch's row count (what event_buffer::ColumnBuffer::push produces)"])
 
+    from .specs import eventbuf as seb
+    add("C16.c/event_buffer_column", "C16", "mirsym", Q,
+        "client row API -> wire column -> server column: event_buffer::ColumnBuffer::push called row by row (as TableBuffer::push_row_and_timestamp does) followed by the server's InputColumn::from_column_data: every row's value (ints coerced to float once the column has seen a float) or NULL arrives in its own row, for dense, sparse, trailing-NULL, all-NULL and string columns",
+        ["locustdb_serialization::event_buffer::ColumnBuffer::push (+ closures)", "ingest::input_column::InputColumn::from_column_data (+ closures)"],
+        bounds="every row-kind sequence over {Int, Float, NULL} of length 0-3 (quick) / 0-4 (thorough) plus longer fixed ones and all-string columns of 1-3 rows; values symbolic (strings: one symbolic byte)",
+        spec=seb.EventBufferSpec(), assumptions=["string columns with NULLs / mixed string-number columns panic by documented assert (\"Sparse columns not currently supported for string\"): outside the shapes explored"])
+
 
 _mirsym()
 
